@@ -188,6 +188,10 @@ class CFG:
             return [], [Jump('break', [(n, 'n')])]
         if isinstance(st, ast.Continue):
             return [], [Jump('continue', [(n, 'n')])]
+        if isinstance(st, ast.Expr) and isinstance(st.value, ast.Call) and dotted(st.value.func) in ('sys.exit', 'os._exit', 'exit'):
+            # never returns normally
+            jumps.append(Jump('raise', [(n, 'exc')], frozenset({'builtins.SystemExit'})))
+            return [], jumps
         cls = self.may_raise(st)
         if cls:
             jumps.append(self._raise_jump(n, cls))
